@@ -41,12 +41,14 @@ func pow10(n int) *big.Int { return new(big.Int).Exp(big.NewInt(10), big.NewInt(
 // tick span appropriate for the pool's ratio (keeps prices within a few e-folds)
 func (p PoolInfo) span() int64 {
 	switch p.Ratio {
+	// the model's price->tick search is linear in |tick| (as the code's), and slow under vm_compute:
+	// keep generated ticks within a few hundred
 	case "1.0001":
-		return 3000
+		return 400
 	case "1.001", "1.002":
-		return 800
+		return 300
 	case "1.01":
-		return 200
+		return 150
 	default:
 		return 40
 	}
@@ -72,16 +74,20 @@ func (w *World) GenOp(ctx sdk.Context, p PoolInfo) Op {
 		// first position (or a re-creation after emptying): both amounts needed
 		if r.Chance(9, 10) {
 			base := r.LogUniform(20)
-			// quote/base within [1/2, 2] so the initial tick stays small
-			num := big.NewInt(int64(50 + r.Intn(151)))
-			quote := new(big.Int).Div(new(big.Int).Mul(base, num), big.NewInt(100))
+			// quote/base close to 1 so the initial tick stays small: within +-3% for fine grids,
+			// within [1/2, 2] for coarse ones
+			num := big.NewInt(int64(9700 + r.Intn(601)))
+			if p.Ratio != "1.0001" && p.Ratio != "1.001" && p.Ratio != "1.002" {
+				num = big.NewInt(int64(5000 + r.Intn(15001)))
+			}
+			quote := new(big.Int).Div(new(big.Int).Mul(base, num), big.NewInt(10000))
 			if quote.Sign() == 0 {
 				quote.SetInt64(1)
 			}
 			lo := -int64(1 + r.Intn(int(sp)))
 			up := int64(1 + r.Intn(int(sp)))
 			// centre the range roughly on the tick the price will get: ln(q/b)/ln(ratio) is within +-span
-			return Op{Kind: "create", Sender: sender, Lower: lo * 8, Upper: up * 8, Base: base, Quote: quote, MinBase: big.NewInt(0), MinQuote: big.NewInt(0), Tag: "first"}
+			return Op{Kind: "create", Sender: sender, Lower: lo, Upper: up, Base: base, Quote: quote, MinBase: big.NewInt(0), MinQuote: big.NewInt(0), Tag: "first"}
 		}
 		if r.Bool() {
 			return Op{Kind: "swap", Sender: sender, ExactIn: true, DenomIn: r.Intn(2), Amount: r.LogUniform(12), Tag: "swap-empty-pool"}
